@@ -35,14 +35,18 @@ impl OrdSpecImpl for IpAddr {
 impl Ord for IpAddr { #[verifier::external_body] fn cmp(&self, other: &IpAddr) -> Ordering { unimplemented!() } }
 
 // ---- the registry: an ArcSwap holding the sorted list of (address, metrics) pairs, and the
-// mutex that serialises writers. Lock protocol as monotone ghost facts (order-free):
-//   was_loaded(s, v)     v was the content of s at some time
-//   has_entry(s, a, m)   the pair (a, m) is in the content of s; stable because the guarantee
-//                        of `store` (below) never removes or replaces an entry
-//   lock_acquired(mx)    this call acquired mx
-pub uninterp spec fn was_loaded(s: &ArcSwap<Vec<(IpAddr, Arc<RtrMetricsData>)>>, v: Seq<(IpAddr, Arc<RtrMetricsData>)>) -> bool;
+// mutex that serialises writers.
+// Ghost clock (rewrite R20): every load / store / lock of the call is one step; the step number
+// is threaded through these calls as an erased argument, so their ORDER can be stated.
+pub tracked struct Clock { pub ghost now: nat }
+// Ghost facts about this call (each produced only by the `ensures` of the operation named):
+//   loaded_at(s, v, t)        load at step t returned the list v
+//   lock_acquired_at(mx, t)   lock at step t acquired mx
+//   has_entry(s, a, m)        the pair (a, m) is in the content of s; stable because the guarantee
+//                             of `store` (below) never removes or replaces an entry
+pub uninterp spec fn loaded_at(s: &ArcSwap<Vec<(IpAddr, Arc<RtrMetricsData>)>>, v: Seq<(IpAddr, Arc<RtrMetricsData>)>, t: nat) -> bool;
+pub uninterp spec fn lock_acquired_at<T>(mx: &Mutex<T>, t: nat) -> bool;
 pub uninterp spec fn has_entry(s: &ArcSwap<Vec<(IpAddr, Arc<RtrMetricsData>)>>, a: IpAddr, m: Arc<RtrMetricsData>) -> bool;
-pub uninterp spec fn lock_acquired<T>(mx: &Mutex<T>) -> bool;
 // the mutex that guards writes to this ArcSwap (a ghost link between the two fields)
 pub uninterp spec fn writer_mutex(s: &ArcSwap<Vec<(IpAddr, Arc<RtrMetricsData>)>>) -> &Mutex<()>;
 
@@ -57,13 +61,46 @@ pub open spec fn is_insert(v: Seq<(IpAddr, Arc<RtrMetricsData>)>, n: Seq<(IpAddr
     &&& forall|j: int| k < j < n.len() ==> #[trigger] n[j] == v[j - 1]
 }
 
-// RtrPerAddrMetrics::get: ASSUMED here; this postcondition is PROVED for the real body in unit
-// rtr_registry (together with the registry protocol).
-impl RtrPerAddrMetrics {
+impl<'a, T> MutexGuard<'a, T> {
+    pub uninterp spec fn mutex_spec(&self) -> &Mutex<T>;
+    pub uninterp spec fn acquired_at(&self) -> nat;
+}
+impl<T> Mutex<T> {
     #[verifier::external_body]
-    fn get(&self, addr: IpAddr) -> (res: Arc<RtrMetricsData>)
-        requires writer_mutex(&self.addrs) == &self.write,
-        ensures has_entry(&self.addrs, addr, res),
+    pub fn lock(&self, Tracked(clk): Tracked<&mut Clock>) -> (g: MutexGuard<'_, T>)
+        ensures
+            g.mutex_spec() == self, g.acquired_at() == old(clk).now,
+            lock_acquired_at(self, old(clk).now),
+            final(clk).now == old(clk).now + 1,
+    { unimplemented!() }
+}
+impl ArcSwap<Vec<(IpAddr, Arc<RtrMetricsData>)>> {
+    // arc_swap::ArcSwap::load: returns the current content (really a Guard that derefs to the
+    // Arc; declared as the Arc here). Havoc on load: any list satisfying I and containing every
+    // entry known to be present.
+    #[verifier::external_body]
+    pub fn load(&self, Tracked(clk): Tracked<&mut Clock>) -> (r: Arc<Vec<(IpAddr, Arc<RtrMetricsData>)>>)
+        ensures
+            sorted_strict(r@), loaded_at(self, r@, old(clk).now),
+            final(clk).now == old(clk).now + 1,
+            // an allocated Vec of 24-byte pairs is far shorter than usize::MAX
+            r@.len() < usize::MAX,
+            forall|i: int| 0 <= i < r@.len() ==> has_entry(self, (#[trigger] r@[i]).0, r@[i].1),
+    { unimplemented!() }
+    // arc_swap::ArcSwap::store. Guarantee conditions of the protocol:
+    #[verifier::external_body]
+    pub fn store(&self, new: Arc<Vec<(IpAddr, Arc<RtrMetricsData>)>>, Tracked(clk): Tracked<&mut Clock>)
+        requires
+            // C36: what is stored is sorted and duplicate free ...
+            sorted_strict(new@),
+            // C36: ... and is a list that was loaded AFTER this call acquired the write mutex (so no
+            // other writer can have stored in between), plus exactly one pair: no address is lost or replaced
+            exists|tl: nat, tv: nat, v: Seq<(IpAddr, Arc<RtrMetricsData>)>, k: int|
+                #[trigger] lock_acquired_at(writer_mutex(self), tl) && #[trigger] loaded_at(self, v, tv)
+                && tl < tv && tv < old(clk).now && is_insert(v, new@, k, #[trigger] new@[k]),
+        ensures
+            final(clk).now == old(clk).now + 1,
+            forall|i: int| 0 <= i < new@.len() ==> has_entry(self, (#[trigger] new@[i]).0, new@[i].1),
     { unimplemented!() }
 }
 
@@ -98,36 +135,6 @@ pub broadcast axiom fn axiom_pair_clone(a: (IpAddr, Arc<RtrMetricsData>), b: (Ip
 // `Vec<T>::into()` for Arc<Vec<T>> (std `From<T> for Arc<T>`): moves the vector into a new Arc.
 #[verifier::external_body]
 pub fn vec_into_arc<T>(v: Vec<T>) -> (r: Arc<Vec<T>>) ensures r@ == v@ { unimplemented!() }
-
-// ---- connection counting
-#[verifier::external_body] pub struct TcpStream { _opaque: () }
-#[verifier::external_body] pub struct SocketAddr { _opaque: () }
-#[verifier::external_body] pub struct TlsAcceptor { _opaque: () }
-#[verifier::external_body] pub struct MaybeTlsTcpStream { _opaque: () }
-#[verifier::external_body] pub struct IoError { _opaque: () }
-#[derive(Clone, Copy)]
-#[verifier::external_body] pub struct Duration { _opaque: () }
-impl SocketAddr {
-    pub uninterp spec fn ip_spec(&self) -> IpAddr;
-    #[verifier::external_body] pub fn ip(&self) -> (r: IpAddr) ensures r == self.ip_spec() { unimplemented!() }
-}
-impl MaybeTlsTcpStream {
-    #[verifier::external_body] pub fn new(sock: TcpStream, tls: Option<&TlsAcceptor>) -> Self { unimplemented!() }
-}
-impl RtrStream {
-    // socket options; may fail (the kernel rejects the keepalive time)
-    #[verifier::external_body] fn set_keepalive(sock: &TcpStream, duration: Duration) -> Result<(), IoError> { unimplemented!() }
-}
-// Monotone ghost facts: the open-connection counter of this metrics record has been
-// incremented / decremented by this call (AtomicUsize fetch_add / fetch_sub).
-pub uninterp spec fn conn_incremented(m: &RtrMetricsData) -> bool;
-pub uninterp spec fn conn_decremented(m: &RtrMetricsData) -> bool;
-impl RtrMetricsData {
-    #[verifier::external_body]
-    pub fn inc_current_connections(&self) ensures conn_incremented(self) { unimplemented!() }
-    #[verifier::external_body]
-    pub fn dec_current_connections(&self) ensures conn_decremented(self) { unimplemented!() }
-}
 
 // ---- std functions without a vstd specification (ASSUMED; their std definitions). Declared so
 // that a change of the code to one of these combinators is verified instead of rejected.
